@@ -232,7 +232,7 @@ func (e *Engine) extend(g GKey, opt LiveOpt, keepLog bool) (ok bool, why string,
 		soup := e.soup(g)
 		for _, node := range allHonest() {
 			ls := e.lstate(int(g[e.slotOf(node)]))
-			for _, m := range e.addressed(soup, node, ls.Height) {
+			for _, m := range e.addressed(soup, node, ls) {
 				seq++
 				queue = append(queue, flight{e.msg(m).Raw, node, clock, seq})
 			}
